@@ -8,6 +8,14 @@ SIZES = {
     'thorough': {'kernel': 400000, 'hist': 4000, 'len': 60},
 }
 
+# the synthesised-state stream (DESIGN.md 11.6): DIFF-ONLY correspondence stream whose histories start
+# from a synthesised deep state written with poke_* operations; 8-14 follow-up operations each
+SYNTH_SIZES = {
+    'quick': {'hist': 96, 'len': 14},
+    'thorough': {'hist': 3000, 'len': 14},
+}
+SYNTH_PROPS = ['C01', 'C02', 'C03', 'C04', 'C05', 'C06', 'C07', 'C08', 'C09', 'C13', 'C14', 'C15', 'C16', 'C19']
+
 ENV_ASSUME = [
     'environment model of DESIGN.md section 7 (atomic transactions, depth-first dispatch, bank rejects zero/overdraft sends, exact staking accounting)',
 ]
@@ -133,3 +141,12 @@ if _os.path.exists(_ej):
     for _pid, _files in _json.load(open(_ej)).items():
         if _pid in PROPS:
             PROPS[_pid]['extra_props_files'] = _files
+
+# hub-side properties also run the synthesised-state stream; a poke whose outcome differs between the
+# two sides is relevant to all of them
+for _pid in SYNTH_PROPS:
+    _spec = PROPS.get(_pid) or PENDING.get(_pid)
+    # VERIF_NO_SYNTH=1 (measurements only): run the check without the synthesised-state stream
+    if _spec is not None and _os.environ.get('VERIF_NO_SYNTH') != '1':
+        _spec['synth'] = True
+        _spec['ops'] = list(_spec.get('ops', [])) + [r'^poke_']
